@@ -16,7 +16,7 @@ META = {
                   "hygienic lookups inside a macro boundary never depend on or return caller bindings (caller_independent, "
                   "caller_invisible_inside), the caller's stack is bit-identical after pushBoundary;body;pop "
                   "(macro_locals_invisible_outside, no_overwrite), unhygienic lookups reach the caller (unhygienic_sees_caller), "
-                  "alpha-renaming of macro locals preserves every hygienic resolution, per lookup (alpha) and for whole expansion bodies with nested blocks (alpha_body). The full alpha statement for "
+                  "alpha-renaming of macro locals preserves every hygienic resolution, per lookup (alpha) and for whole expansion bodies with nested blocks (alpha_body; with unhygienic islands under the no-capture hypothesis: alpha_body_islands_partial). The full alpha statement for "
                   "identifiers inside unhygienic islands is refuted on the model (unhygienic_capture_witness: a macro local named "
                   "like the caller's variable captures it) and proved under the no-collision hypothesis (alpha_unhygienic_partial). "
                   "The model is tied to the real Checker by generated push/add/resolve sequences; that the checker uses these "
